@@ -56,6 +56,7 @@ const (
 	c20_fEOFLine = "C20-eof-quotes-previous-line"
 	c20_fNoPos   = "C20-compile-error-without-position"
 	c20_fEOF2    = "C20-error-at-second-eof-column"
+	c20_fFragPos = "C20-template-fragment-error-position"
 )
 
 // ---------------------------------------------------------------- real lexer
@@ -1323,6 +1324,19 @@ func c20_msgClass(msg string) string {
 	return msg
 }
 
+var c20_reUndefined = regexp.MustCompile(`undefined variable "([^"]+)"`)
+
+// c20_errInTemplateFragment: the compile error names a variable that occurs inside the `{…}` of a
+// single-quoted template string of the text (the guard of C20-template-fragment-error-position)
+func c20_errInTemplateFragment(src, msg string) bool {
+	m := c20_reUndefined.FindStringSubmatch(msg)
+	if m == nil {
+		return false
+	}
+	re, err := regexp.Compile(`'[^'\n]*\{[^}'\n]*\b` + regexp.QuoteMeta(m[1]) + `\b[^}'\n]*\}[^'\n]*'`)
+	return err == nil && re.MatchString(src)
+}
+
 func c20_splitLinesRunes(src string) [][]rune {
 	var out [][]rune
 	for _, l := range strings.Split(src, "\n") {
@@ -1371,7 +1385,14 @@ func c20Diag(e *Env, src string, label string, spec bool, agreeLex bool) {
 		fmt.Sscanf(m[2], "%d", &col)
 		if ln < 1 || ln > len(lines) || col < 1 || col-1 > len(lines[ln-1]) {
 			e.R.H("diag_verdict", "compile error position outside the text")
-			e.R.Spec(src, fmt.Sprintf("compile error position line %d column %d does not exist in the text: %s | %s", ln, col, msg, label), "")
+			finding := ""
+			if c20_errInTemplateFragment(src, msg) {
+				// the error was raised while compiling the expression of a template fragment,
+				// which is parsed and compiled as a text of its own: the position is relative
+				// to the fragment (recorded finding)
+				finding = c20_fFragPos
+			}
+			e.R.Spec(src, fmt.Sprintf("compile error position line %d column %d does not exist in the text: %s | %s", ln, col, msg, label), finding)
 			return
 		}
 		e.R.H("diag_verdict", "compile error position exists (compile errors carry no source line)")
